@@ -15,7 +15,7 @@ SPEC = dict(
          "sizes {0,1,b-1,b,b+1,3b+2} x block sizes {1,2,16,(4096)} x contents {random, zero, 0xFF} x with/without announced hash: the "
          "honest run plus every single fault at every position (open, each block, close); EXHAUSTIVE op sequences to depth 3 (quick) / "
          "4 (thorough) over a 9-symbol alphabet on a 2-block file; block-size negotiation cases; seeded random sequences over the whole "
-         "alphabet; 65536 and 65537 blocks of size 1 (16-bit sequence wrap), more in thorough; SOCKS5 receive path on 127.0.0.1 "
+         "alphabet; 65537 blocks of size 1 first (corpus: 16-bit sequence wrap, fixed by 49cbe2e, must succeed), 65536 blocks, duplicate / lost block right after the wrap, two wraps in thorough; SOCKS5 receive path on 127.0.0.1 "
          "(real QXmppSocksServer/Client): honest in 1 and 2 chunks, truncated, altered, overlong. A sequence is non-trivial when it "
          "yields >= 2 distinct observations.",
     trusted_base=[
@@ -30,8 +30,11 @@ SPEC = dict(
     assumptions=[
         "MD5 collision resistance is a named hypothesis (hcoll) of success_implies_identical_bytes / altered_block_never_success / "
         "socks_success_implies_identical_bytes, stated on exactly the two contents compared; never an axiom",
-        "the block counters are C++ `int` on both sides: modelled as Nat (receiver cannot exceed 65536; the sender's int overflows after "
-        "2^31 blocks, outside the model); the wire field is UInt16 as in QXmppIbbDataIq",
+        "the block counters are `quint16 ibbSequence` on both sides (repo commit 49cbe2e) and the wire field is quint16: UInt16 "
+        "everywhere in the model, wrapping from 65535 to 0",
+        "success_implies_identical_bytes_by_sequence_partial and fault_never_success_partial are proved for files of at most 65536 "
+        "blocks: beyond that a 16-bit sequence number cannot tell block n from block n+65536 (without a hash XEP-0047 itself cannot "
+        "detect a replay exactly 65536 blocks later); the hash-based theorem is unconditional",
         "stream initiation (XEP-0095/0096) is performed by the real code but is outside the model: the model starts with <open/> in "
         "flight; SOCKS5 stream-host / proxy negotiation is outside the model; the SOCKS5 sending job is not exercised",
         "the IBB block size is not settable through the public API (fixed 4096): the harness writes QXmppTransferManagerPrivate::"
@@ -42,9 +45,10 @@ SPEC = dict(
         "(duplicate_is_refused_and_harmless): read as satisfying the property (reported as protocol error to the peer, bytes exact)",
     ],
     level_text="Theorems for every file, block size and channel history: success implies identical bytes (with the announced hash: "
-               "against any channel incl. forgeries; without: by sequence numbers + size against any non-altering channel); honest run "
-               "succeeds up to 65536 blocks; every single lost/reordered/mislabelled/truncated/altered block is never reported as "
-               "success; two defect theorems with witnesses (16-bit sequence wrap; no hash announced => altered block accepted). Model "
+               "against any channel incl. forgeries, unconditional; without: by sequence numbers + size against any non-altering "
+               "channel, up to 65536 blocks); the honest run succeeds for EVERY size and block size (counters wrap together); every "
+               "single lost/reordered/mislabelled/truncated block (up to 65536 blocks) or altered block (any size, hash announced) is "
+               "never reported as success; one defect theorem with witness (no hash announced => altered block accepted). Model "
                "tied to two real clients by exhaustive+random correspondence.",
     level_note="Proved about the hand-written model; model-to-code tie is differential (exhaustive to depth 3/4 on a small file, all "
                "single faults at all positions for 6 sizes x 3-4 block sizes, sampled beyond). SOCKS5: receive path only.",
